@@ -405,6 +405,9 @@ func (s *Sim) autoClaims(st *Step) {
 	if st.Action == "outsider-claim" {
 		s.outsiderClaims()
 	}
+	if st.Action == "mistype" || st.Action == "shift-height" {
+		s.reissuePending(st.Action, before)
+	}
 	s.res.Fault("auto_claim_proof_pass")
 	s.res.ProbeN("own_txs_broadcast", len(n.Tm.Mempool)-before)
 }
@@ -588,6 +591,12 @@ func (s *Sim) checkClaimTx(b *blockObs, m pc.MsgClaim, r abci.ResponseDeliverTx,
 	sessionEnd := sh + bps - 1
 	proofHeight := sh + window*bps
 	// ---- C32: admission conditions
+	if bps > 0 && (sh-1)%bps != 0 {
+		s.violate("C32", "claim-for-height-that-starts-no-session", "claim", fmt.Sprintf("height %d: claim of %d relays accepted for session block height %d; with %d blocks per session, sessions start at heights 1, %d, %d, ...", h, m.TotalProofs, sh, bps, 1+bps, 1+2*bps))
+	}
+	if m.EvidenceType != pc.RelayEvidence {
+		s.res.Probe("claim_typed_challenge_accepted")
+	}
 	if h <= sessionEnd {
 		s.violate("C32", "claim-before-session-end", "claim", fmt.Sprintf("height %d: claim for session %d..%d accepted", h, sh, sessionEnd))
 	}
@@ -742,7 +751,7 @@ func (s *Sim) checkProofTx(b *blockObs, m pc.MsgProof, r abci.ResponseDeliverTx,
 		// the servicer counted a relay twice: the path the chain selected runs through a zero-width
 		// range and must be refused and reported as a replay
 		s.res.Probe("zero_width_path_submitted")
-		if c, ok := vb.Claims[claimStoreKey(vb, servicer, header)]; ok {
+		if c, ok := vb.Claims[claimStoreKey(vb, servicer, header, m.EvidenceType)]; ok {
 			s.res.Tracef("   zero-width proof h=%d code=%d claim total=%d rootUpper=%d index=%d target=%v levels=%d ranges=%v", h, r.Code, c.TotalProofs, c.MerkleRoot.Range.Upper, m.MerkleProof.TargetIndex, m.MerkleProof.Target.Range, len(m.MerkleProof.HashRanges), func() []pc.Range {
 				var o []pc.Range
 				for _, x := range m.MerkleProof.HashRanges {
@@ -754,7 +763,7 @@ func (s *Sim) checkProofTx(b *blockObs, m pc.MsgProof, r abci.ResponseDeliverTx,
 		s.res.Case("dup-evidence-proof/zero-width")
 		if minted.IsPositive() || r.Code == 0 {
 			s.violate("C30", "zero-width-range-accepted", "dup-evidence", fmt.Sprintf("height %d: a proof whose path runs through a zero-width range returned code %d and minted %s", h, r.Code, minted))
-		} else if _, pending := vb.Claims[claimStoreKey(vb, servicer, header)]; pending && featureOn(codec.ReplayBurnKey, h) && inst != nil && !(r.Codespace == pc.ModuleName && r.Code == uint32(pc.CodeReplayAttackError)) {
+		} else if _, pending := vb.Claims[claimStoreKey(vb, servicer, header, m.EvidenceType)]; pending && featureOn(codec.ReplayBurnKey, h) && inst != nil && !(r.Codespace == pc.ModuleName && r.Code == uint32(pc.CodeReplayAttackError)) {
 			// (only while the claim is still pending: once it expired or was settled the proof is
 			// refused as "claim not found" before its path is looked at)
 			s.violate("C30", "zero-width-range-not-reported-as-replay", "dup-evidence", fmt.Sprintf("height %d: proof path through a zero-width range answered %d/%s", h, r.Code, r.Codespace))
@@ -791,7 +800,7 @@ func (s *Sim) checkProofTx(b *blockObs, m pc.MsgProof, r abci.ResponseDeliverTx,
 					s.violate("C31", "rewarded-leaf-is-not-the-selected-one", "proof", fmt.Sprintf("height %d: reward minted for leaf %d of %d (session height %d); the block hash selects leaf %d", h, m.MerkleProof.TargetIndex, inst.total, header.SessionBlockHeight, want))
 				}
 			}
-			if _, still := va.Claims[claimStoreKey(va, servicer, header)]; still {
+			if _, still := va.Claims[claimStoreKey(va, servicer, header, m.EvidenceType)]; still {
 				s.violate("C32", "claim-survives-reward", "proof", fmt.Sprintf("height %d: the claim of %s for session height %d is still pending after its reward", h, servicer, header.SessionBlockHeight))
 			}
 			s.checkRewardSplit(b, m, inst, vb, va, minted)
@@ -831,9 +840,11 @@ func (s *Sim) selectedLeaf(header pc.SessionHeader, total int64) (int64, bool) {
 	return x.Mod(x, big.NewInt(total)).Int64(), true
 }
 
-func claimStoreKey(v *View, servicer string, header pc.SessionHeader) string {
+// claimStoreKey finds the stored claim of a servicer for a session and an evidence type (a claim
+// of the other evidence type for the same session is another claim).
+func claimStoreKey(v *View, servicer string, header pc.SessionHeader, et pc.EvidenceType) string {
 	for k, c := range v.Claims {
-		if c.FromAddress.String() == servicer && c.SessionHeader.HashString() == header.HashString() {
+		if c.FromAddress.String() == servicer && c.SessionHeader.HashString() == header.HashString() && c.EvidenceType == et {
 			return k
 		}
 	}
@@ -900,6 +911,9 @@ func (s *Sim) checkRewardSplit(b *blockObs, m pc.MsgProof, inst *claimInst, vb, 
 	fee := sdk.NewInt(baseFee)
 	dao, _ := vb.ParamInt("pos/DAOAllocation")
 	prop, _ := vb.ParamInt("pos/ProposerPercentage")
+	if dao+prop > 100 {
+		s.res.Probe("reward_paid_with_allocations_over_100")
+	}
 	// fee collector share = floor(M * (dao+proposer) / 100)
 	wantFC := sdk.NewIntFromBigInt(new(big.Int).Quo(new(big.Int).Mul(minted.BigInt(), big.NewInt(dao+prop)), big.NewInt(100)))
 	gotFC := sdk.ZeroInt()
@@ -1081,6 +1095,64 @@ func (s *Sim) forgePending(mut string, from int) {
 	}
 }
 
+// reissuePending (C32): a servicer of this process sends, next to each claim and proof it has
+// just broadcast, a second version signed by itself:
+//   - "mistype": the same claim / proof with the evidence type "challenge" although the tree was
+//     built from relays. The relays of one session must not be paid through two claims.
+//   - "shift-height": the same claim for the session block height + 1, a height at which no session
+//     starts. A session exists only at its start heights; the allowance is per session.
+func (s *Sim) reissuePending(kind string, from int) {
+	n := s.node
+	dec := auth.DefaultTxDecoder(app.Codec())
+	end := len(n.Tm.Mempool)
+	for i := from; i < end; i++ {
+		t, err := dec(n.Tm.Mempool[i], s.drv.Height)
+		if err != nil {
+			continue
+		}
+		st := t.(authTypes.StdTx)
+		var msg sdk.ProtoMsg
+		var signer sdk.Address
+		switch m := st.Msg.(type) {
+		case *pc.MsgClaim:
+			c := *m
+			if kind == "mistype" {
+				c.EvidenceType = pc.ChallengeEvidence
+			} else {
+				c.SessionHeader.SessionBlockHeight++
+			}
+			msg, signer = &c, c.FromAddress
+		case *pc.MsgProof:
+			if kind != "mistype" {
+				continue
+			}
+			p := *m
+			p.EvidenceType = pc.ChallengeEvidence
+			msg, signer = &p, p.GetSigners()[0]
+		default:
+			continue
+		}
+		idx := s.keyIndexOf(signer.String())
+		if idx < 0 {
+			continue
+		}
+		priv := KeyFor(s.cfg.KeySeed, idx)
+		s.relayEntropy++
+		signBytes, serr := auth.StdSignBytes(ChainID, s.relayEntropy, st.Fee, msg, st.Memo)
+		if serr != nil {
+			continue
+		}
+		sig, _ := priv.Sign(signBytes)
+		tx := authTypes.NewTx(msg, st.Fee, authTypes.StdSignature{Signature: sig, PublicKey: priv.PublicKey()}, st.Memo, s.relayEntropy)
+		bz, eerr := auth.DefaultTxEncoder(app.Codec())(tx, -1)
+		if eerr != nil {
+			continue
+		}
+		n.Tm.Mempool = append(n.Tm.Mempool, bz)
+		s.res.Fault("reissued_" + strings.ReplaceAll(kind, "-", "_"))
+	}
+}
+
 // duplicateEvidence makes a cheating servicer count one relay twice before claiming.
 func (s *Sim) duplicateEvidence(pn *pc.PocketNode) {
 	it := pc.EvidenceIterator(pn.EvidenceStore)
@@ -1100,7 +1172,7 @@ func (s *Sim) duplicateEvidence(pn *pc.PocketNode) {
 			continue
 		}
 		if s.committedView != nil {
-			if _, pending := s.committedView.Claims[claimStoreKey(s.committedView, pn.GetAddress().String(), ev.SessionHeader)]; pending {
+			if _, pending := s.committedView.Claims[claimStoreKey(s.committedView, pn.GetAddress().String(), ev.SessionHeader, pc.RelayEvidence)]; pending {
 				continue
 			}
 		}
